@@ -325,7 +325,9 @@ func cmdCheck(args []string) {
 				nRange++
 				continue
 			}
-			if obHasProp(o, *prop) {
+			// every obligation of a function listed under the property counts (its post-conditions
+			// are what callers verified under the same property assume), whatever the clause tags
+			if obHasProp(o, *prop) || contains(x.funcProps, *prop) {
 				obs = append(obs, o)
 			}
 		}
